@@ -206,7 +206,8 @@ def _wrap_fluent(cls, name):
         try:
             r = orig(self, *args, **kwargs)
         except BaseException as e:
-            entry[2] = type(e).__name__
+            # a subclass of the library's configuration error counts as a configuration error
+            entry[2] = "ImproperlyConfigured" if any(c.__name__ == "ImproperlyConfigured" for c in type(e).__mro__) else type(e).__name__
             d["_pta_in"] = 0
             _run_hooks(cls, self, entry)
             raise
@@ -433,9 +434,13 @@ def _wrap_rule_assert():
     def assert_applies(self, evaluable):
         if not HUB.active:
             return orig(self, evaluable)
+        try:
+            cfg = snapshot_rule(self)
+        except Exception as e:  # noqa: BLE001  internals renamed? then this monitor cannot observe: inconclusive, not a verdict
+            HUB.acc.mark_inconclusive(f"Rule monitor cannot read the rule configuration: {type(e).__name__}: {e}")
+            return orig(self, evaluable)
         entry = ["assert_applies", [], None]
         trace_of(self).append(entry)
-        cfg = snapshot_rule(self)
         before = graph_state(evaluable)
         exc = None
         HUB.depth += 1
